@@ -314,7 +314,7 @@ pub fn run(ctx: &mut Ctx) {
 
 pub fn replay(ctx: &mut Ctx, d: &J) -> Option<()> {
     if d.get("literal").is_some() || d.get("big_batch").is_some() {
-        // (fixed families, re-run as a whole by the check itself)
+        super::rerun_fixed(ctx);
         return Some(());
     }
     let f = fmt_of(d)?;
